@@ -1,0 +1,27 @@
+//go:build verif
+
+package device
+
+// Hooks for the C06 (handshake message integrity) check.  Add-only; build tag verif.
+
+// VerifC06HoldIdentity write-locks the static identity the way SetPrivateKey does while a
+// private_key update is applied, and returns the function that releases it.  Handshake work
+// that needs the identity (CreateMessageInitiation, Consume*) parks until then.
+func (device *Device) VerifC06HoldIdentity() (release func()) {
+	device.staticIdentity.Lock()
+	return device.staticIdentity.Unlock
+}
+
+// VerifC06FireRetransmit makes the peer's retransmit-handshake timer expire now, so that
+// expiredRetransmitHandshake runs as a genuine timer callback (on the timer's goroutine,
+// under the timer's running lock, which timersStop waits for).
+func (device *Device) VerifC06FireRetransmit(pk NoisePublicKey) bool {
+	device.peers.RLock()
+	peer := device.peers.keyMap[pk]
+	device.peers.RUnlock()
+	if peer == nil {
+		return false
+	}
+	peer.timers.retransmitHandshake.Mod(0)
+	return true
+}
